@@ -680,6 +680,29 @@ func evalOnce(text string, di int) string {
 
 func suitePurity(o *Out, thorough bool, seed int64) {
 	r := newRand(seed, "purity")
+	// reference results: every (formula, data) pair evaluated once in pool order, once in reverse order and
+	// once more in pool order; an operation that leaves hidden state behind changes a later one in at
+	// least one of the orders
+	ref := map[string]string{}
+	for pass := 0; pass < 3; pass++ {
+		for k := 0; k < len(purityPool); k++ {
+			i := k
+			if pass == 1 {
+				i = len(purityPool) - 1 - k
+			}
+			for di := 0; di < 3; di++ {
+				key := fmt.Sprintf("%d:%s", di, hx([]byte(purityPool[i])))
+				res := evalOnce(purityPool[i], di)
+				if strings.Contains(purityPool[i], "now(") || strings.Contains(purityPool[i], "toDay(") {
+					continue
+				}
+				if old, ok := ref[key]; ok && old != res {
+					o.Fail("NOP\tpurity\t"+key, fmt.Sprintf("%q evaluated to %s before and to %s after other formulas were evaluated", purityPool[i], old, res))
+				}
+				ref[key] = res
+			}
+		}
+	}
 	n := 1500
 	if thorough {
 		n = 60000
